@@ -187,6 +187,27 @@ def gen_mixdelim(tier):
                             yield c_
 
 
+def gen_formnames(tier):
+    """candidate names for the form itself and for loop-built groups (whatever is accepted must still be a well-formed document)"""
+    from props.C17 import FORM_NAMES
+
+    for nm in FORM_NAMES:
+        for ch in ("settings-name", "form_name-arg", "loop-choice"):
+            wb = {"survey": [{"type": "text", "name": "q", "label": "Q"}]}
+            kw = {}
+            if ch == "settings-name":
+                wb["settings"] = [{"name": nm}]
+            elif ch == "form_name-arg":
+                kw["form_name"] = nm
+            else:
+                wb["survey"] += [{"type": "begin loop over t", "name": "lp", "label": "LP"}, {"type": "text", "name": "lq", "label": "LQ"}, {"type": "end loop"}]
+                wb["choices"] = [{"list_name": "t", "name": nm, "label": "N"}, {"list_name": "t", "name": "ok1", "label": "O"}]
+            meta = {"gen": "formnames", "col": ch}
+            if nm.count(":") == 1 and not nm.startswith(":") and not nm.endswith(":"):
+                meta["name_channel"] = f"{ch}-with-colon"  # the same acceptance of prefixed names as for question names
+            yield {"wb": wb, "kw": kw, "meta": meta, "id": "data"}
+
+
 # bad author-typed *names* (not text): each is its own known-finding channel
 BAD_NAMES = [
     ("bind-badname", {"bind::a<b": "v"}, None, None),
@@ -373,7 +394,7 @@ def gen_containers(tier):
 SPACE = GenSpace(
     {"names": gen_names, "types": gen_types, "layouts": gen_layouts, "containers": gen_containers,
      "settings": gen_settings, "text": gen_text, "namechars": gen_namechars, "lists-cols": gen_lists_cols,
-     "nsprefix": gen_nsprefix, "mixdelim": gen_mixdelim},
+     "nsprefix": gen_nsprefix, "mixdelim": gen_mixdelim, "formnames": gen_formnames},
     chunk=250,
 )
 blocks = SPACE.blocks
@@ -436,7 +457,7 @@ def check_one(case):
             src, kw = render.render(case["wb"], case["fmt"])
             out = run_convert(src, pretty_print=pretty, **kw)
         else:
-            out = run_convert(case["wb"], pretty_print=pretty)
+            out = run_convert(case["wb"], pretty_print=pretty, **case.get("kw", {}))
         kinds.append(out.kind)
         if out.kind != "ok":
             continue
